@@ -7,7 +7,8 @@ From Flocq Require Import Raux.
 From Alator Require Import Model.Num Model.Quirks Model.Cost Model.Exchange Model.Uist Model.Server
   Model.Broker Model.Perf Model.Strategy
   Proofs.ServerProofs Proofs.BrokerLedgerProofs Proofs.BrokerLiqProofs Proofs.UistProofs
-  Proofs.ExchangeProofs Proofs.ExchangeCorollaries Proofs.StrategyProofs.
+  Proofs.ExchangeProofs Proofs.ExchangeCorollaries Proofs.StrategyProofs Proofs.EndToEnd16
+  Model.Penelope Proofs.PenelopeProofs Proofs.EndToEndCor.
 Import ListNotations.
 Local Existing Instance RNum."""
 
@@ -29,6 +30,11 @@ gen("C16", "C16 — the strategy loop walks the whole dataset and records a fait
     ("c16_booking_creates_no_value", "book_trades_worth", "[R] … because booking such trades does."),
     ("c16_init_value", "st_init_worth", "[R] init moves that worth by exactly the deposit (when accepted) …"),
     ("c16_withdraw_value", "st_withdraw_worth", "[R] … and a plain withdrawal by exactly its amount when it succeeds: with constant prices and zero spread every snapshot's value equals the cash deposited minus successful plain withdrawals."),
+    ("c16_update_keeps_worth", "sys_update_const", "[R] END TO END, one update of the full composition (strategy + broker + eager client + Uist server + Uist exchange) on a dataset with constant zero-spread prices: the system invariant (the broker stores only such quotes, holds only quoted symbols, every order of its backtest still in the exchange is for a quoted symbol) is preserved, cash + sum of price x holding is unchanged, and the one snapshot recorded shows exactly that figure — whatever the weights, costs, hash orders and sort oracle; gaps (dates without a row, symbols coming and going) included."),
+    ("c16_run_keeps_worth", "sys_run_const", "[R] … hence for the whole run(): every snapshot it records shows the worth the system had when it started."),
+    ("c16_constant_prices_end_to_end", "c16_constant_prices_end_to_end", "[R] END TO END from a fresh start: a strategy over a broker that has seen the first date's quotes, init(c), run() on an N-date dataset with constant zero-spread prices: exactly N updates, N snapshots, EVERY snapshot's portfolio value equals the cash deposited c."),
+    ("c16_constant_prices_with_withdrawals", "c16_constant_prices_with_withdrawals", "[R] … and with plain withdrawals interleaved between updates every snapshot shows the deposit minus the successful withdrawals so far."),
+    ("c16_dataset_constant_when_loaded_so", "load_dataset_const", "[R] The dataset premise holds of every Penelope loaded with bid = ask = price(symbol) on every add_quote call."),
     ("c16_refuted_q_strategy_ncf_self_add", "st_deposit_ncf_defect", "Refuted for the code as it was: deposit_cash did net_cash_flow += net_cash_flow, so the figure stayed 0 whatever was deposited."),
 ])
 
